@@ -208,3 +208,29 @@ func vInitialFontWeight() (int, []string) {
 	}
 	return 1, nil
 }
+
+//@ func asPixels
+//@   props C04
+//@   nopanic
+//@   inline
+
+// Absolute lengths (css-values-3 §6.2): 1in = 96px = 72pt = 6pc = 2.54cm = 25.4mm = 101.6q;
+// em is the given font size; keywords, percentages and px are returned unchanged. The result
+// of a conversion is in px (or a bare number when pixelsOnly). The ratios come from the
+// table pr.LengthsToPixels as built by its package initialiser.
+//@ func length_
+//@   props C04
+//@   requires computer != nil
+//@   modifies anything
+//@   let conv = value.S != "auto" && value.S != "content" && value.Value != 0
+//@   let u = ite(pixelsOnly, pr.Scalar, pr.Px)
+//@   ensures[keywords] value.S == "auto" || value.S == "content" ==> result == value
+//@   ensures[px] conv && value.Unit == pr.Px ==> result.Value == value.Value && result.Unit == u && result.S == value.S
+//@   ensures[in] conv && value.Unit == pr.In ==> result.Value == value.Value * 96 && result.Unit == u && result.S == ""
+//@   ensures[pt] conv && value.Unit == pr.Pt ==> result.Value * 72 == value.Value * 96 && result.Unit == u && result.S == ""
+//@   ensures[pc] conv && value.Unit == pr.Pc ==> result.Value * 6 == value.Value * 96 && result.Unit == u && result.S == ""
+//@   ensures[cm] conv && value.Unit == pr.Cm ==> result.Value * 2.54 == value.Value * 96 && result.Unit == u && result.S == ""
+//@   ensures[mm] conv && value.Unit == pr.Mm ==> result.Value * 25.4 == value.Value * 96 && result.Unit == u && result.S == ""
+//@   ensures[q] conv && value.Unit == pr.Q ==> result.Value * 101.6 == value.Value * 96 && result.Unit == u && result.S == ""
+//@   ensures[em] conv && value.Unit == pr.Em && fontSize >= 0 ==> result.Value == value.Value * fontSize && result.Unit == u && result.S == ""
+//@   ensures[percentage] conv && value.Unit == pr.Perc ==> result == value
